@@ -106,6 +106,10 @@ class Lowerer:
         self.repo_callees = set()
         self.ret_ctype = None
         self.ret_class = False
+        self.is_lambda = is_lambda
+        self.this_const = None     # lifted lambda: constness of the captured `this` is that of the enclosing method
+        self.local_lambdas = {}    # VarDecl id of `auto f = [..](..){..};` -> (C name of the lifted function, capture arguments, captures this, lowerer)
+        self.lifted = []           # C text of the lifted functions (must precede the function's own text)
 
     # ------------------------------------------------------------------ types
     def ctype(self, t, node=None):
@@ -608,6 +612,8 @@ class Lowerer:
         sym = rd['name'].replace('operator', '')
         operands = n['inner'][1:]
         a0 = self.skip(operands[0])
+        if sym == '()' and a0.get('kind') == 'DeclRefExpr' and a0['referencedDecl'].get('id') in self.local_lambdas:
+            return self.call_local_lambda(n, rd, a0, operands[1:])
         t0 = self.tkey(a0)
         keys = []
         if len(operands) > 1:
@@ -757,6 +763,92 @@ class Lowerer:
         self.pre.append('%s = %s;' % (target, e))
         return target
 
+    # ------------------------------------------------------------------ local lambdas
+    def lift_local_lambda(self, v, lam, sp):
+        """`auto f = [captures](params) { body };` (non-generic, evaluated for its value only): the body becomes a C function
+        <cname>__<f>(self?, params..., captured locals by address...); calls `f(args)` become calls of it.  Captures: `this`, locals by
+        reference, const locals by copy (a snapshot of a const object equals the object).  Creating the closure has no side effect."""
+        inner = [c for c in lam.get('inner', []) if isinstance(c, dict) and c.get('kind')]
+        rec = [c for c in inner if c.get('kind') == 'CXXRecordDecl']
+        if len(rec) != 1:
+            raise Unsupported('local lambda without closure record')
+        ops = [c for c in rec[0].get('inner', []) if c.get('kind') == 'CXXMethodDecl' and c.get('name') == 'operator()' and
+               any(x.get('kind') == 'CompoundStmt' for x in c.get('inner', []))]
+        if len(ops) != 1:
+            raise Unsupported('local lambda %s is generic or has no body' % v.get('name'))
+        op = ops[0]
+        fields = [c for c in rec[0].get('inner', []) if c.get('kind') == 'FieldDecl']
+        inits = [c for c in inner if c.get('kind') not in ('CXXRecordDecl', 'CompoundStmt')]
+        if len(fields) != len(inits):
+            raise Unsupported('local lambda %s: %d capture fields, %d capture initialisers' % (v.get('name'), len(fields), len(inits)))
+        child = type(self)(op, '%s__%s' % (self.cname, v['name']), self.p, this_type=None, is_lambda=True)
+        child.source_files = getattr(self, 'source_files', [])
+        extra, call_args, captures_this = [], [], False
+        for f, i in zip(fields, inits):
+            i0 = self.skip(i)
+            if i0.get('kind') == 'CXXThisExpr':
+                captures_this = True
+                continue
+            if i0.get('kind') != 'DeclRefExpr' or i0['referencedDecl'].get('id') not in self.locals:
+                raise Unsupported('local lambda %s captures something other than `this` or a local variable' % v.get('name'))
+            rd = i0['referencedDecl']
+            cn, ct, is_ref = self.locals[rd['id']]
+            by_ref = qt(f).strip().endswith('&')
+            if not by_ref and not re.match(r'\s*const\b', rd.get('type', {}).get('qualType', '')):
+                raise Unsupported('local lambda %s captures the non-const local %s by copy' % (v.get('name'), rd.get('name')))
+            pn = 'cap_' + cn
+            child.names.add(pn)
+            child.locals[rd['id']] = (pn, ct, True)
+            extra.append('%s *%s' % (ct, pn))
+            call_args.append(cn if is_ref else '&' + cn)
+        if captures_this:
+            if not self.this_type:
+                raise Unsupported('local lambda captures `this` in a function lowered without one')
+            child.this_type = self.this_type
+            child.this_const = re.search(r'\)\s*const', qt(self.decl)) is not None if self.this_const is None else self.this_const
+        child.loops = self.loops
+        text = child.lower(extra)
+        if child.loops != self.loops:
+            raise Unsupported('loop inside the local lambda %s (loop contracts cannot be attached to a lifted function)' % v.get('name'))
+        text = text.replace('/*@CONTRACT@*/\n', '')
+        # accounting of the lifted body belongs to the enclosing function
+        for k, n_ in child.fired.items():
+            self.fired[k] = self.fired.get(k, 0) + n_
+        self.dropped.extend(child.dropped)
+        for et, names in child.need_enums.items():
+            self.need_enums.setdefault(et, set()).update(names)
+        self.need_globals.update(child.need_globals)
+        for k, val in child.__dict__.items():
+            if isinstance(val, set) and k not in ('names',) and isinstance(getattr(self, k, None), set):
+                getattr(self, k).update(val)
+        self.lifted.extend(child.lifted)
+        self.lifted.append(text)
+        self.local_lambdas[v['id']] = (child.cname, call_args, captures_this, child)
+        self.fire('lambda:lifted-local')
+        self.emit('%s/* local lambda %s lifted to %s */' % (sp, v['name'], child.cname))
+
+    def call_local_lambda(self, n, rd, a0, argn):
+        cname, cap_args, captures_this, child = self.local_lambdas[a0['referencedDecl']['id']]
+        refs = self.param_refs(rd.get('type', {}).get('qualType', ''))
+        args = ['self'] if captures_this else []
+        ret_tmp = None
+        if child.ret_class:
+            ret_tmp = self.newtmp()
+            self.pre.append('%s %s;' % (child.ret_ctype, ret_tmp))
+            args.append('&' + ret_tmp)
+        for i, a in enumerate(argn):
+            if a.get('kind') == 'CXXDefaultArgExpr':
+                args.append(self.default_arg(a))
+                continue
+            a1 = self.skip(a)
+            args.append(self.arg(a1, byref=(i < len(refs) and refs[i] and not self.is_class(a1))))
+        self.fire('lambda:call-lifted-local')
+        call = '%s(%s)' % (cname, ', '.join(args + cap_args))
+        if ret_tmp:
+            self.pre.append(call + ';')
+            return ret_tmp
+        return call
+
     # ------------------------------------------------------------------ statements
     def flush(self, sp):
         for p in self.pre:
@@ -856,6 +948,9 @@ class Lowerer:
             return self.static_local(v, sp)
         t = qt(v)
         init = [c for c in v.get('inner', []) if isinstance(c, dict) and 'kind' in c and not c['kind'].endswith('Attr')]
+        if init and self.skip(init[0]).get('kind') == 'LambdaExpr' and 'expr:LambdaExpr' not in self.p.calls and \
+                type(self).lambda_expr is Lowerer.lambda_expr and not t.strip().endswith('&'):
+            return self.lift_local_lambda(v, self.skip(init[0]), sp)
         is_ref = t.strip().endswith('&')
         if is_ref:
             i0 = self.skip(init[0])
@@ -1094,7 +1189,7 @@ class Lowerer:
         d = self.decl
         params = []
         if self.this_type:
-            const = re.search(r'\)\s*const', qt(d)) is not None
+            const = re.search(r'\)\s*const', qt(d)) is not None if self.this_const is None else self.this_const
             params.append('%s%s *self' % ('const ' if const else '', self.this_type))
         body = None
         for c in d['inner']:
